@@ -10,9 +10,9 @@ def register(prop, J):
               "pre-populated with user files, a hand-written custom typeref implementation and stale generated files; distinct by "
               "initial population",
          jobs=[
-             J("clean-v2", "v2", "cleanprops", "^TestC20(Regress|Enum|Missing|Clean)$", checks=(6000, 250000), shards=(16, 16), timeout=(300, 1200)),
+             J("clean-v2", "v2", "cleanprops", "^TestC20(Regress|Enum|Missing|Clean|Symlinks)$", checks=(6000, 250000), shards=(16, 16), timeout=(300, 1200)),
              J("regen-v2", "v2", "cleanprops", "^TestC20Regen$", checks=(160, 3200), shards=(8, 16), timeout=(300, 1200)),
-             J("clean-v1", "v1", "cleanprops", "^TestC20(Regress|Enum|Missing|Clean)$", checks=(4000, 120000), shards=(8, 16), timeout=(300, 1200),
+             J("clean-v1", "v1", "cleanprops", "^TestC20(Regress|Enum|Missing|Clean|Symlinks)$", checks=(4000, 120000), shards=(8, 16), timeout=(300, 1200),
                env={"VERIF_C20_QUICK_SPACE": "small"}),
              J("regen-v1", "v1", "cleanprops", "^TestC20Regen$", checks=(80, 1600), shards=(8, 16), timeout=(300, 1200)),
          ],
@@ -27,7 +27,8 @@ def register(prop, J):
                     "module generations; the enumerated spaces are complete, the depth-3 x 3-entries space of the quantifier is only "
                     "sampled; no absence proof",
          level_note="runs as root on ext4 under os.TempDir(): permission-denied paths (read-only directories) are not exercisable; "
-                    "symlinks and special files are outside the property's alphabet and not generated",
+                    "user symbolic links to directories outside the output tree are covered by their own generated check (the link stays, nothing behind it changes; TestC20Symlinks); "
+                    "other special files are outside the property's alphabet and not generated",
          technique="exhaustive enumeration of small directory trees + property-based testing (rapid) against a reference set model; "
                    "multi-process regeneration differential",
          design_ref="2/C20",
